@@ -453,3 +453,41 @@ M("C15", AL, """        if not mat[i_row].any() and rhs_mat[i_row].any():
 M("C15", AL, """        if np.count_nonzero(mat[nonz_row]) != 1:
             # the row still couples this unknown to another one
             raise RuntimeError(f"cannot uniquely solve for '{unknown}'")""", """        pass""", "revert of fix 56e573d (under-determined)")
+
+UN = "pymbolic/mapper/unifier.py"
+M("C16", UN, """        if name in map1:
+            if map1[name] != value:
+                return None""", """        if name in map1:
+            pass""", "conflicting bindings of one variable accepted")
+M("C16", UN, """        if (self.lhs_mapping_candidates is not None
+                and lhs_is_var
+                and lhs.name not in self.lhs_mapping_candidates):
+            return None""", """        if (self.lhs_mapping_candidates is not None
+                and lhs_is_var
+                and lhs.name not in self.lhs_mapping_candidates):
+            pass""", "undeclared variables may be bound")
+M("C16", UN, """        if (not isinstance(other, type(expr))
+                or expr.operator != other.operator):
+            return self.treat_mismatch(expr, other, urecs)""", """        if not isinstance(other, type(expr)):
+            return self.treat_mismatch(expr, other, urecs)""", "comparison operator not compared")
+M("C16", UN, """                        yield result
+                        continue""", """                        yield result
+                        return""", "revert of fix 6271d5e (first partition only)")
+M("C16", UN, """        if expr.name != other.name:
+            return []
+
+        return self.rec(expr.aggregate, other.aggregate, urecs)""", """        return self.rec(expr.aggregate, other.aggregate, urecs)""", "lookup names not compared (not in fragment: must stay silent)", expect="MISSED")
+MP = "pymbolic/interop/matchpy/tofrom.py"
+M("C16", MP, """        return p.Quotient(self.rec(expr.x1), self.rec(expr.x2))""",
+  """        return p.Quotient(self.rec(expr.x2), self.rec(expr.x1))""", "quotient operands swapped on the way back")
+M("C16", MP, """                           m.TupleOp(tuple(self.rec(idx)
+                                           for idx in expr.index_tuple)))""", """                           m.TupleOp(tuple(self.rec(idx)
+                                           for idx in expr.index_tuple[:1])))""", "only the first subscript index converted")
+M("C16", "pymbolic/interop/matchpy/__init__.py", """        return tuple(from_matchpy_expr(el) for el in arg)
+    else:
+        return from_matchpy_expr(arg)""", """        return tuple(from_matchpy_expr(el) for el in arg[:1])
+    else:
+        return from_matchpy_expr(arg)""", "star binding truncated in match()")
+M("C16", "pymbolic/interop/matchpy/__init__.py", """        if len(operands) == 1 and isinstance(operands[0], tuple):
+            operands, = operands
+        object.__setattr__(self, "_operands", tuple(operands))""", """        object.__setattr__(self, "_operands", operands[0] if len(operands) == 1 and isinstance(operands[0], tuple) else (_ for _ in ()).throw(TypeError("TupleOp")))""", "revert-like of fix 0272831 (TupleOp re-creation fails)")
